@@ -411,7 +411,7 @@ pub fn run(casefile: &str, first: usize) {
     let out_fd = unsafe { libc::fcntl(1, libc::F_DUPFD_CLOEXEC, 200) };
     unsafe { OUT_FD = out_fd };
     let mut out = Out(unsafe { File::from_raw_fd(out_fd) });
-    let dir = format!("/tmp/verif-pipe-{}", std::process::id());
+    let dir = std::env::var("VERIF_PIPE_DIR").unwrap_or_else(|_| format!("/tmp/verif-pipe-{}", std::process::id()));
     std::fs::create_dir_all(&dir).unwrap();
     let me = std::env::current_exe().unwrap();
     let stage_bin = me.parent().unwrap().join("hplain").to_string_lossy().into_owned();
